@@ -63,6 +63,78 @@ static std::string run_case(const Case &c, bool count) {
   return "";
 }
 
+// ---- keys nobody can sign for: RSA public keys of unusual sizes with a made-up modulus, and real keys whose item is flagged
+// with an error although the key material loaded (setkey takes such items). Every token must be rejected: there is no
+// valid signature for the first kind, and for the second the tokens are damaged copies of valid ones.
+struct OddCase { int prov; std::string jwk; std::string alg; std::string token; std::string what; };
+static std::string odd_json(const OddCase &o) { return "{\"kind\":\"odd-key\",\"prov\":" + std::to_string(o.prov) + ",\"jwk\":" + jstr(o.jwk) + ",\"alg\":" + jstr(o.alg) + ",\"what\":" + jstr(o.what) + ",\"token\":" + jstr(o.token) + "}"; }
+// 0 rejected, 1 accepted, -1 not applicable (the key does not import / is refused for that alg)
+static int run_odd(const OddCase &o, int route) {
+  set_provider(o.prov); set_now(1700000000);
+  LKey lk(o.jwk); if (!lk.item) return -1;
+  jwt_alg_t alg = jwt_str_alg(o.alg.c_str());
+  jwt_checker_t *ch = jwt_checker_new(); CbCtx cx{lk.item, alg}; int sr = route ? jwt_checker_setcb(ch, cb_fn, &cx) : jwt_checker_setkey(ch, alg, lk.item);
+  int ret = -1; if (!sr) ret = jwt_checker_verify(ch, o.token.c_str()) == 0 ? 1 : 0;
+  jwt_checker_free(ch); return ret;
+}
+static void odd_keys(Stats &st, const Args &a) {
+  std::vector<OddCase> cs;
+  static const int BITS[] = {2048, 2056, 4096, 8192, 16384, 16392, 16400, 24576, 32768, 65536};
+  static const char *RSALG[] = {"RS256", "RS384", "RS512", "PS256", "PS384", "PS512"};
+  for (int bits : BITS) {
+    Rng r(bits); std::string n = r.bytes(bits / 8); n[0] |= (char)0x80; n[n.size() - 1] |= 1;
+    std::string jwk = "{\"kty\":\"RSA\",\"n\":\"" + b64u_enc(n) + "\",\"e\":\"AQAB\"}";
+    for (int prov = 0; prov < 2; prov++) for (const char *al : RSALG) {
+      std::string in = b64u_enc(std::string("{\"alg\":\"") + al + "\"}") + "." + b64u_enc("{\"sub\":\"x\"}");
+      std::string one(bits / 8, '\0'); one[one.size() - 1] = 1;
+      for (auto &sg : {r.bytes(bits / 8), std::string(bits / 8 - 1, 'x'), std::string(256, 'y'), one, std::string(1, 'z')})
+        cs.push_back({prov, jwk, al, in + "." + b64u_enc(sg), "rsa-public-key-of-" + std::to_string(bits) + "-bits-with-made-up-modulus"});
+    }
+  }
+  for (const KeySpec *k : KEYS) for (int ai = 0; ai < NALGS; ai++) if (strength_ok(*k, ALGS[ai].alg)) {
+    JwkOpts o; o.priv = k->kind == K_OCT; o.alg_raw = "256"; std::string jwk = jwk_json(*k, o);
+    std::string good = base_token(*k, ALGS[ai].alg, 0), bad = good; size_t pos = bad.size() - 3; bad[pos] = bad[pos] == 'A' ? 'B' : 'A';
+    TokParts tp = split_token(good);
+    for (int prov = 0; prov < 2; prov++) { cs.push_back({prov, jwk, ALGS[ai].name, bad, "flagged-item(alg:256)-" + k->name}); cs.push_back({prov, jwk, ALGS[ai].name, tp.signing_input + "." + b64u_enc(std::string(tp.sdec.size(), 'j')), "flagged-item(alg:256)-" + k->name}); }
+  }
+  for (size_t i = 0; i < cs.size(); i++) {
+    if ((int)(i % a.nworkers) != a.worker) continue;
+    for (int route = 0; route < 2; route++) {
+      int r = run_odd(cs[i], route); st.evaluations++; st.cls(r < 0 ? "odd-key:not-applicable" : r ? "odd-key:accepted" : "odd-key:rejected");
+      if (r == 0) st.nontrivial(mix(fnv(cs[i].token), mix(fnv(cs[i].jwk), cs[i].prov * 2 + route)));
+      if (r == 1) { st.violation(std::string("C01:accepts-token-nobody-could-sign:") + (cs[i].what.rfind("rsa-public", 0) == 0 ? "rsa-made-up-modulus" : "flagged-item") + ":" + prov_name(cs[i].prov), "a token without a valid signature is accepted under " + cs[i].what, odd_json(cs[i])); return; }
+    }
+  }
+}
+
+// ---- ECDSA signatures with short halves, every re-encoding of them, deterministically: for each EC key and algorithm sign
+// until a signature whose r starts with a zero octet, one whose s does, and (where it is likely enough) one where both do have
+// been seen, then apply all nine ecdsa-special re-encodings under both providers and all four routes.
+static std::string sig_class(const Case &c);
+static void ecdsa_specials(Stats &st, const Args &a) {
+  std::vector<std::pair<size_t, int>> ec; for (size_t ki = 0; ki < KEYS.size(); ki++) for (int ai = 0; ai < NALGS; ai++) if (KEYS[ki]->kind == K_EC && strength_ok(*KEYS[ki], ALGS[ai].alg)) ec.push_back({ki, ai});
+  for (size_t ci = 0; ci < ec.size(); ci++) {
+    // with more workers than cells every cell is done by several workers (each with its own signatures)
+    if ((size_t)a.nworkers >= ec.size() ? (size_t)a.worker % ec.size() != ci : ci % a.nworkers != (size_t)a.worker) continue;
+    size_t ki = ec[ci].first; int ai = ec[ci].second; const KeySpec &k = *KEYS[ki]; jwt_alg_t alg = ALGS[ai].alg;
+    size_t w = (k.bits + 7) / 8; std::string found[4]; int tries = k.bits == 521 ? 400 : 3000;
+    for (int i = 0; i < tries && (found[1].empty() || found[2].empty() || (k.bits == 521 && found[3].empty())); i++) {
+      std::string t = ref_token(k, alg, std::string("{\"alg\":\"") + jwt_alg_str(alg) + "\",\"typ\":\"JWT\"}", "{\"sub\":\"ec\",\"i\":" + std::to_string(i + 1000 * a.worker) + "}");
+      TokParts tp = split_token(t); if (!tp.ok || tp.sdec.size() != 2 * w) continue;
+      int cls = (tp.sdec[0] == 0 ? 1 : 0) | (tp.sdec[w] == 0 ? 2 : 0); if (found[cls].empty()) found[cls] = t;
+    }
+    for (int cls = 0; cls < 4; cls++) if (!found[cls].empty()) {
+      st.cls(std::string("ecdsa-special-base:") + (cls == 0 ? "full-width-r-and-s" : cls == 1 ? "short-r" : cls == 2 ? "short-s" : "short-r-and-s"));
+      for (int v = 0; v < 9; v++) for (int prov = 0; prov < 2; prov++) for (int cfg = 0; cfg < 4; cfg++) {
+        Case c; c.prov = prov; c.key = (int)ki; c.algi = ai; c.cfg = cfg; c.pay = 0; c.muts.push_back({M_EC_SPECIAL, v, 0, 0});
+        c.token = apply(k, alg, 0, found[cls], c.muts[0]);
+        std::string r = run_case(c, true);
+        if (!r.empty()) { std::string sig = "C01:" + r + ":" + sig_class(c); if (st.is_known(sig)) { st.known_hits[sig]++; continue; } st.violation(sig, "checker accepted a re-encoded ECDSA signature the reference verifier rejects: " + r, case_json(c)); return; }
+      }
+    }
+  }
+}
+
 static std::string sig_class(const Case &c) {
   const KeySpec &k = *KEYS[c.key];
   return std::string(k.kind == K_OCT ? "oct" : k.kind == K_RSA ? "rsa" : k.kind == K_EC ? "ec" : "okp") + ":" + prov_name(c.prov);
@@ -83,6 +155,8 @@ int main(int argc, char **argv) {
 
   if (!a.replay.empty()) {
     J j = J::parse(read_file(a.replay)); if (!j) return 2;
+    if (json_object_get(j.p, "kind")) { OddCase o{(int)json_integer_value(json_object_get(j.p, "prov")), json_string_value(json_object_get(j.p, "jwk")), json_string_value(json_object_get(j.p, "alg")), from_latin1_utf8(json_string_value(json_object_get(j.p, "token"))), ""};
+      return run_odd(o, 0) == 1 || run_odd(o, 1) == 1 ? 3 : 0; }
     Case c; c.prov = (int)json_integer_value(json_object_get(j.p, "prov")); c.cfg = (int)json_integer_value(json_object_get(j.p, "cfg")); c.pay = 0;
     std::string kn = json_string_value(json_object_get(j.p, "key")), an = json_string_value(json_object_get(j.p, "alg"));
     c.key = -1; for (size_t i = 0; i < KEYS.size(); i++) if (KEYS[i]->name == kn) c.key = (int)i;
@@ -94,12 +168,17 @@ int main(int argc, char **argv) {
     return r.empty() ? 0 : 3;
   }
 
+  odd_keys(st, a);
+  if (!st.violations.empty()) return finish();
+  ecdsa_specials(st, a);
+  if (!st.violations.empty()) return finish();
   uint64_t n = a.thorough() ? 150000 : 2500;
   if (a.kv.count("cases")) n = strtoull(a.kv["cases"].c_str(), 0, 10);
   std::string params = "seed=" + std::to_string(a.seed * 1000 + a.worker) + " max_success=" + std::to_string(n) + " max_size=60 max_discard_ratio=50";
   setenv("RC_PARAMS", params.c_str(), 1);
   Case lastfail; std::string lastwhy;
   bool ok = rc::check("C01: verify==0 only for tokens valid under the configured key", [&]() {
+    if (v::shrink_exhausted()) return;
     Case c;
     auto cell = *rc::gen::elementOf(cells);
     c.key = cell.first; c.algi = cell.second;
@@ -116,7 +195,7 @@ int main(int argc, char **argv) {
       std::string sig = "C01:" + r + ":" + sig_class(c);
       if (st.is_known(sig)) { st.known_hits[sig]++; return; }
       lastfail = c; lastwhy = r;
-      RC_FAIL(r);
+      v::fail_seen()++; RC_FAIL(r);
     }
   });
   if (!ok && !lastwhy.empty()) {
